@@ -111,13 +111,23 @@ def check_picture(ctx: Ctx, h, k, dump, rects, where, edited):
 
 
 def oracle_history(ctx: Ctx, h, iouts):
-    rects = []
-    edited = False
-    skip = False
-    vals = {}
+    """Per table of the history: the picture of exactly the rectangles merged in THAT table (a table in which nothing was
+    merged - e.g. one added after another table's merges were saved - has no merged cell at all)."""
+    rects_of: dict = {}
+    edited_of: dict = {}
+    skip_of: dict = {}
+    ntab = 0
     for k, (op, out) in enumerate(zip(h, iouts)):
-        if skip:
-            return
+        if op[0] == "N":
+            rects_of[ntab], edited_of[ntab], skip_of[ntab] = [], False, False
+            ntab += 1
+            continue
+        ti = op[1] if len(op) > 1 and isinstance(op[1], int) else 0
+        if skip_of.get(ti):
+            if ntab == 1:
+                return
+            continue
+        rects = rects_of.setdefault(ti, [])
         if op[0] == "M":
             if out != "ok":
                 ctx.oracle_fail("merge-refused", {"history": [list(o) for o in h[:k + 1]]}, f"{op} -> {out}")
@@ -126,17 +136,46 @@ def oracle_history(ctx: Ctx, h, iouts):
         elif op[0] in ("AR", "AC", "DR", "DC") and rects:
             new = shift_rects(rects, op)
             if new is None:
-                skip = True   # the edit cuts through a rectangle: no defined expectation
+                skip_of[ti] = True   # the edit cuts through a rectangle: no defined expectation
                 continue
             if new != rects:
-                edited = True
-            rects = new
+                edited_of[ti] = True
+            rects_of[ti] = new
         elif op[0] in ("D", "RO"):
             ctx.count("oracle-picture")
             if out.startswith("!"):
                 ctx.oracle_fail("dump-raises", {"history": [list(o) for o in h[:k + 1]]}, f"{op} -> {out}")
                 return
-            check_picture(ctx, h, k, out, rects, "reopened" if op[0] == "RO" else "open", edited)
+            check_picture(ctx, h, k, out, rects, "reopened" if op[0] == "RO" else "open", edited_of.get(ti, False))
+
+
+def gen_multi_history(rng):
+    """Two or three tables; merges in some of them; tables added before and AFTER a save that wrote a merge map;
+    every table is looked at on the open document and after save + reopen."""
+    nr, nc = rng.randrange(4, 8), rng.randrange(4, 8)
+    ops = [("N", nr, nc)]
+    dims = [(nr, nc)]
+    if rng.random() < 0.5:
+        ops.append(("N", 5, 5))
+        dims.append((5, 5))
+    for (r0, c0, r1, c1) in disjoint_rects(rng, nr, nc, rng.choice([1, 2])):
+        ops.append(("M", 0, r0, c0, r1, c1))
+    ops.append(("RO", 0) if rng.random() < 0.7 else ("D", 0))
+    for _ in range(rng.choice([1, 2])):
+        a, b = rng.randrange(3, 8), rng.randrange(3, 8)
+        ops.append(("N", a, b))
+        dims.append((a, b))
+        ops.append(("D", len(dims) - 1))
+    for ti in range(1, len(dims)):
+        if rng.random() < 0.6:
+            for (r0, c0, r1, c1) in disjoint_rects(rng, dims[ti][0], dims[ti][1], 1):
+                ops.append(("M", ti, r0, c0, r1, c1))
+        ops.append(("W", ti, 0, 0, 40 + ti))
+    for ti in range(len(dims)):
+        ops.append(("D", ti))
+    for ti in range(len(dims)):
+        ops.append(("RO", ti))
+    return ops
 
 
 def fixture_merge_oracle(ctx: Ctx):
@@ -302,7 +341,10 @@ def run(ctx: Ctx) -> int:
     fixed = [gridlib.with_dumps(h, 1) for h in fixed]
     ctx.dist("histories:merge-only", len(plain))
     ctx.dist("histories:merge+structural-edits", len(edits))
-    for name, hs in (("fixed", fixed), ("merge", plain), ("merge-edits", edits)):
+    multi = [[("N", 6, 6), ("M", 0, 1, 1, 2, 2), ("W", 0, 1, 1, 7), ("RO", 0), ("N", 6, 6), ("D", 1), ("RO", 1), ("RO", 0)]]
+    multi += [gen_multi_history(rng) for _ in range(12 if ctx.quick else 150)]
+    ctx.dist("histories:several-tables", len(multi))
+    for name, hs in (("fixed", fixed), ("merge", plain), ("merge-edits", edits), ("merge-multi", multi)):
         if exe:
             res = gridlib.lockstep(ctx, exe, name, hs)
         else:
@@ -310,6 +352,10 @@ def run(ctx: Ctx) -> int:
         for h, _, iouts in res:
             oracle_history(ctx, h, iouts)
     fixture_merge_oracle(ctx)
+    # a tall table: anchors on either side of a tile boundary and at rows whose index needs 13 and 16 bits
+    tall = [("N", 2, 2), ("W", 0, 33000, 1, 5), ("M", 0, 4096, 0, 4097, 1), ("M", 0, 32768, 0, 32769, 1), ("M", 0, 255, 0, 256, 1),
+            ("M", 0, 8191, 0, 8192, 1), ("D", 0), ("RO", 0)]
+    oracle_history(ctx, tall, gridlib.run_impl(ctx.tmp, "tall", tall))
     if not ctx.quick:
         # the 16-bit packing of the merge map: an anchor at row 65536
         h = [("N", 2, 2), ("W", 0, 65540, 1, 5), ("M", 0, 65536, 0, 65537, 1), ("RO", 0)]
